@@ -194,8 +194,15 @@ theorem frameEvents_ok (k : Nat) (tr : List Ev) (ps : List Pdu) (r : List Ev) (h
     | deadline => simp [frameEvents] at h
     | lostDeadline => simp [frameEvents] at h
 
-/-- A response reports state `d`: its AL status decodes and the state nibble is `d`. -/
-def Reports (d : Nat) (p : Pdu) : Prop := ∃ c, unpackAlControl p.data = .ok c ∧ c.state = d
+theorem checkWkc_ok (p q : Pdu) (k : Nat) (h : p.checkWkc k = .ok q) : q = p ∧ p.wkc = k := by
+  unfold Pdu.checkWkc at h
+  by_cases hw : p.wkc = k
+  · rw [if_pos hw] at h; cases h; exact ⟨rfl, hw⟩
+  · rw [if_neg hw] at h; cases h
+
+/-- A status response reports state `d`: it was answered by exactly one device (working counter
+    1), its AL status decodes and the state nibble is `d`. -/
+def Reports (d : Nat) (p : Pdu) : Prop := p.wkc = 1 ∧ ∃ c, unpackAlControl p.data = .ok c ∧ c.state = d
 
 theorem checkStates_true (d : Nat) (ps : List Pdu) (h : checkStates d ps = .ok true) : ∀ p ∈ ps, Reports d p := by
   induction ps with
@@ -204,14 +211,18 @@ theorem checkStates_true (d : Nat) (ps : List Pdu) (h : checkStates d ps = .ok t
     simp only [checkStates] at h
     split at h
     · simp at h
-    · rename_i c hc
-      by_cases hs : c.state ≠ d
-      · rw [if_pos hs] at h; simp at h
-      · rw [if_neg hs] at h
-        intro q hq
-        rcases List.mem_cons.1 hq with rfl | hq
-        · exact ⟨c, hc, by simpa using hs⟩
-        · exact ih h q hq
+    · rename_i q hq
+      obtain ⟨rfl, hw⟩ := checkWkc_ok p q 1 hq
+      split at h
+      · simp at h
+      · rename_i c hc
+        by_cases hs : c.state ≠ d
+        · rw [if_pos hs] at h; simp at h
+        · rw [if_neg hs] at h
+          intro r hr
+          rcases List.mem_cons.1 hr with rfl | hr
+          · exact ⟨hw, c, hc, by simpa using hs⟩
+          · exact ih h r hr
 
 theorem checkStates_false (d : Nat) (ps : List Pdu) (h : checkStates d ps = .ok false) : ∃ p ∈ ps, ¬ Reports d p := by
   induction ps with
@@ -220,16 +231,20 @@ theorem checkStates_false (d : Nat) (ps : List Pdu) (h : checkStates d ps = .ok 
     simp only [checkStates] at h
     split at h
     · simp at h
-    · rename_i c hc
-      by_cases hs : c.state ≠ d
-      · refine ⟨p, by simp, ?_⟩
-        rintro ⟨c', hc', hd⟩
-        rw [hc] at hc'
-        cases hc'
-        exact hs hd
-      · rw [if_neg hs] at h
-        obtain ⟨q, hq, hn⟩ := ih h
-        exact ⟨q, by simp [hq], hn⟩
+    · rename_i q hq
+      obtain ⟨rfl, hw⟩ := checkWkc_ok p q 1 hq
+      split at h
+      · simp at h
+      · rename_i c hc
+        by_cases hs : c.state ≠ d
+        · refine ⟨q, by simp, ?_⟩
+          rintro ⟨_, c', hc', hd⟩
+          rw [hc] at hc'
+          cases hc'
+          exact hs hd
+        · rw [if_neg hs] at h
+          obtain ⟨r, hr, hn⟩ := ih h
+          exact ⟨r, by simp [hr], hn⟩
 
 /-- Frames of a round that passed completely: the trace starts with one response per member of
     every frame, in order, each reporting the state; exactly those frames were sent. -/
